@@ -225,6 +225,12 @@ def core(skip=()):
            "header": "namespace outer { const std::string& name(); void fill(std::vector<int> &v);\n"
                      "  namespace inner { std::vector<double> grid(); } }",
            "decls": ["int top(int a)"], "language": "c++", "options": {}}
+    # function templates whose instantiations differ in the result type only / in the argument type
+    yield {"pre": ["- decl: template<typename T, typename U> T convert(U value)\n  cxx_template:\n  - instantiation: <int, double>\n"
+                   "  - instantiation: <long, double>\n",
+                   "- decl: template<typename T> T twice(T value)\n  cxx_template:\n  - instantiation: <int>\n  - instantiation: <double>\n"],
+           "header": "template<typename T, typename U> T convert(U value); template<typename T> T twice(T value);",
+           "decls": ["int top(int a)"], "language": "c++", "options": {}}
     # a struct whose member types need a standard header that no prototype brings in
     yield {"pre": ["- decl: struct Big { size_t n; int64_t big; uint8_t flag; };"], "decls": ["int top(int a)"], "language": "c++",
            "options": {}, "bare_header": True, "header": "#include <cstddef>\n#include <cstdint>"}
@@ -259,7 +265,8 @@ def core(skip=()):
                          "void sta(Pt *p +intent(in)+rank(1), int n +implied(size(p)))"], "language": lang, "options": {}}
 
 
-PYDECLS = ["void f1(int *v +rank(1))", "void f2(const char *s)", "int *f3() +dimension(3)", "void f4(std::vector<int> &v +intent(out))",
+PYDECLS = ["int f10(const std::vector<int> &v)", "void f11(void *p)", "double f12(const std::vector<double> &v, int n)",
+           "void f1(int *v +rank(1))", "void f2(const char *s)", "int *f3() +dimension(3)", "void f4(std::vector<int> &v +intent(out))",
            "void f5(double *a +intent(inout)+rank(1))", "int f6(int a, double b = 1.0)", "void f7(char **names +intent(in))",
            "std::string f8()", "void f9(int *out +intent(out))"]
 PYOPTS = [{}, {"PY_write_helper_in_util": "true"}, {"PY_array_arg": "list"}, {"PY_array_arg": "list", "PY_write_helper_in_util": "true"},
